@@ -183,7 +183,8 @@ structure Step where
   out : List Str := []
   exited : Bool := false
   /-- the builtin returned a Rust `Err` (not just a non-zero status): `cd` to a missing directory,
-      `readonly` / `unset` of a read-only variable -/
+      `readonly` / `unset` of a read-only variable.  Wherever the command runs — in a list, as a pipeline
+      stage on a clone, as the parent's own last stage — the error is displayed and becomes status 1. -/
   err : Bool := false
 
 /-- effect of a mutator on the `Shell` value it runs on (brush's builtins, as they behave today) -/
@@ -352,8 +353,8 @@ structure After where
   world : World
   status : Nat
   out : List Str
-  /-- the rest of the parent's command line was abandoned (an `Err` of a pipeline stage task is
-      re-raised in the parent by `wait_for_pipeline_processes_and_update_status`) -/
+  /-- the rest of the parent's command line does not run.  No subshell context causes this; it
+      happens only when the parent's *own* last pipeline stage (under `lastpipe`) is an `exit`. -/
   aborted : Bool := false
   deriving DecidableEq
 
@@ -374,9 +375,6 @@ def runStages (sh fr : Comp → Bool) (root : List Str) : List Mut → ShellPart
     let r := runMuts root [m] { sh := cloneWith fr p, world := w }
     runStages sh fr root ms (leakWith sh r.sh p) r.world
 
-/-- does some stage of `m1 | m2 | …` end in a Rust `Err`?  Each stage starts from a clone of the parent. -/
-def stagesErr (fr : Comp → Bool) (root : List Str) (ms : List Mut) (p : ShellPart) : Bool :=
-  ms.any (fun m => (stepShell root m (cloneWith fr p)).err)
 
 /-- a non-empty list as (all but the last, the last) -/
 def splitLast {α : Type} : List α → Option (List α × α)
@@ -401,21 +399,20 @@ def execWith (sh fr : Comp → Bool) (root : List Str) (c : Ctx) (ms : List Mut)
   match c with
   | .stages =>
     let r := runStages sh fr root ms p0 w
-    let e := stagesErr fr root ms p0
-    { shell := r.1, world := r.2, status := if e then 1 else 0, out := [], aborted := e }
+    -- the last stage is `true`; a stage that fails, even with a Rust `Err`, fails alone
+    { shell := r.1, world := r.2, status := 0, out := [] }
   | .pl =>
     match splitLast ms with
     | none => { shell := p0, world := w, status := 0, out := [] }
     | some (init, l) =>
       let r := runStages sh fr root init p0 w      -- the non-final stages, each on its own clone
-      let e := stagesErr fr root init p0
       if lastpipeOn p0 || init.isEmpty then   -- (a pipeline of one command always runs in the current shell)
         -- the last stage `{ l; }` runs on the parent itself; an `exit` there leaves the parent
         let st := stepShell root l r.1
-        { shell := st.sh, world := stepWorld l r.2, status := st.status, out := st.out, aborted := e || st.exited }
+        { shell := st.sh, world := stepWorld l r.2, status := st.status, out := st.out, aborted := st.exited }
       else
         let rr := runMuts root [l] { sh := cloneWith fr r.1, world := r.2 }
-        { shell := leakWith sh rr.sh r.1, world := rr.world, status := rr.status, out := rr.out, aborted := e }
+        { shell := leakWith sh rr.sh r.1, world := rr.world, status := rr.status, out := rr.out }
   | _ =>
     let r := childRun fr root ms p0 w
     { shell := leakWith sh r.sh p0, world := r.world,
